@@ -7,6 +7,9 @@
 From Sci Require Export Text.Model Text.Spec.
 Local Open Scope N_scope.
 
+(** compact string literals of the case files: [n] bytes, big endian *)
+Definition bs (n v : N) : str := be_bytes (N.to_nat n) v.
+
 Inductive ires := ROk (v : val) | RErr (code : N) | RPanic.
 
 Record tcase := mkT {
